@@ -635,17 +635,17 @@ struct Shape {
 
 /// free function whose parameters are owned values
 macro_rules! shape {
-    ($name:literal, $sync:ident, $thr:ident, $asy:ident, ($($a:ident : $t:ty),*)) => {{
+    ($name:literal, $sync:ident, $thr:ident, $asy:ident, ($($a:ident : [$($t:tt)+]),*)) => {{
         #[cache]
-        fn $sync($($a: $t),*) -> u64 { fresh() }
+        fn $sync($($a: $($t)+),*) -> u64 { fresh() }
         #[cache(scope = "thread")]
-        fn $thr($($a: $t),*) -> u64 { fresh() }
+        fn $thr($($a: $($t)+),*) -> u64 { fresh() }
         #[cache_async]
-        async fn $asy($($a: $t),*) -> u64 { fresh() }
+        async fn $asy($($a: $($t)+),*) -> u64 { fresh() }
         #[allow(unused_mut, unused_variables)]
-        fn conv(vs: &[V]) -> ($($t,)*) {
+        fn conv(vs: &[V]) -> ($($($t)+,)*) {
             let mut it = vs.iter();
-            ($(<$t as Arg>::from_v(it.next().unwrap()),)*)
+            ($(<$($t)+ as Arg>::from_v(it.next().unwrap()),)*)
         }
         #[allow(unused_mut)]
         fn run(vs: &[V]) -> Real {
@@ -671,7 +671,7 @@ macro_rules! shape {
                 asy: shared_code(call_asy(va), call_asy(vb), call_asy(va)),
             }
         }
-        Shape { name: $name, recv: None, args: vec![$(<$t as Arg>::ty()),*], run, probe }
+        Shape { name: $name, recv: None, args: vec![$(<$($t)+ as Arg>::ty()),*], run, probe }
     }};
 }
 
@@ -717,20 +717,20 @@ macro_rules! shape_ref {
 
 /// method with a `&self` receiver whose key is Debug-derived; the receiver is the first value
 macro_rules! method_shape {
-    ($name:literal, $r:ty, $sync:ident, $thr:ident, $asy:ident, ($($a:ident : $t:ty),*)) => {{
+    ($name:literal, $r:ty, $sync:ident, $thr:ident, $asy:ident, ($($a:ident : [$($t:tt)+]),*)) => {{
         impl $r {
             #[cache]
-            fn $sync(&self $(, $a: $t)*) -> u64 { fresh() }
+            fn $sync(&self $(, $a: $($t)+)*) -> u64 { fresh() }
             #[cache(scope = "thread")]
-            fn $thr(&self $(, $a: $t)*) -> u64 { fresh() }
+            fn $thr(&self $(, $a: $($t)+)*) -> u64 { fresh() }
             #[cache_async]
-            async fn $asy(&self $(, $a: $t)*) -> u64 { fresh() }
+            async fn $asy(&self $(, $a: $($t)+)*) -> u64 { fresh() }
         }
         #[allow(unused_mut, unused_variables)]
-        fn conv(vs: &[V]) -> ($r, ($($t,)*)) {
+        fn conv(vs: &[V]) -> ($r, ($($($t)+,)*)) {
             let mut it = vs.iter();
             let r = <$r as Arg>::from_v(it.next().unwrap());
-            (r, ($(<$t as Arg>::from_v(it.next().unwrap()),)*))
+            (r, ($(<$($t)+ as Arg>::from_v(it.next().unwrap()),)*))
         }
         #[allow(unused_mut)]
         fn run(vs: &[V]) -> Real {
@@ -756,41 +756,41 @@ macro_rules! method_shape {
                 asy: shared_code(call_asy(va), call_asy(vb), call_asy(va)),
             }
         }
-        Shape { name: $name, recv: Some(<$r as Arg>::ty()), args: vec![$(<$t as Arg>::ty()),*], run, probe }
+        Shape { name: $name, recv: Some(<$r as Arg>::ty()), args: vec![$(<$($t)+ as Arg>::ty()),*], run, probe }
     }};
 }
 
 fn shapes() -> Vec<Shape> {
     vec![
         shape!("noargs", k_noargs, t_noargs, a_noargs, ()),
-        shape!("u64", k_u64, t_u64, a_u64, (a: u64)),
-        shape!("u32_u32", k_u32_u32, t_u32_u32, a_u32_u32, (a: u32, b: u32)),
-        shape!("i8_i128_usize", k_ints, t_ints, a_ints, (a: i8, b: i128, c: usize)),
-        shape!("i64_u128_i16", k_ints2, t_ints2, a_ints2, (a: i64, b: u128, c: i16)),
-        shape!("str_str", k_str_str, t_str_str, a_str_str, (a: String, b: String)),
-        shape!("str_str_str", k_str3, t_str3, a_str3, (a: String, b: String, c: String)),
+        shape!("u64", k_u64, t_u64, a_u64, (a: [u64])),
+        shape!("u32_u32", k_u32_u32, t_u32_u32, a_u32_u32, (a: [u32], b: [u32])),
+        shape!("i8_i128_usize", k_ints, t_ints, a_ints, (a: [i8], b: [i128], c: [usize])),
+        shape!("i64_u128_i16", k_ints2, t_ints2, a_ints2, (a: [i64], b: [u128], c: [i16])),
+        shape!("str_str", k_str_str, t_str_str, a_str_str, (a: [String], b: [String])),
+        shape!("str_str_str", k_str3, t_str3, a_str3, (a: [String], b: [String], c: [String])),
         shape_ref!("strref_strref", k_strref, t_strref, a_strref, (a: String => &str, b: String => &str)),
         shape_ref!("slice_str_slice_u8", k_slices, t_slices, a_slices, (a: Vec<String> => &[String], b: Vec<u8> => &[u8])),
-        shape!("bool_char", k_bool_char, t_bool_char, a_bool_char, (a: bool, b: char)),
-        shape!("char_str_char", k_char_str, t_char_str, a_char_str, (a: char, b: String, c: char)),
-        shape!("f64_f32", k_floats, t_floats, a_floats, (a: f64, b: f32)),
-        shape!("f64_i32_str", k_float_mix, t_float_mix, a_float_mix, (a: f64, b: i32, c: String)),
-        shape!("optstr_vecstr", k_opt_vec, t_opt_vec, a_opt_vec, (a: Option<String>, b: Vec<String>)),
-        shape!("tuple_str_i32_tuple1", k_tuples, t_tuples, a_tuples, (a: (String, i32), b: (u8,))),
-        shape!("tuple5_tuple2", k_tuple5, t_tuple5, a_tuple5, (a: (u8, bool, char, String, i64), b: (i64, String))),
-        shape!("nested", k_nested, t_nested, a_nested, (a: Vec<Option<(String, char)>>, b: Option<Vec<i16>>, c: Vec<Vec<String>>)),
-        shape!("optopt_vecbool_opttuple1", k_optopt, t_optopt, a_optopt, (a: Option<Option<String>>, b: Vec<bool>, c: Option<(f32,)>)),
-        shape!("point_fig", k_point_fig, t_point_fig, a_point_fig, (a: Point, b: Fig)),
-        shape!("tagged_marker_str", k_tagged, t_tagged, a_tagged, (a: Tagged, b: Marker, c: String)),
-        shape!("outer_vecfig", k_outer, t_outer, a_outer, (a: Outer, b: Vec<Fig>)),
-        shape!("unicode_ident", k_nandu, t_nandu, a_nandu, (a: Ñandú, b: String)),
-        method_shape!("store.get(str)", Store, m_get, mt_get, ma_get, (k: String)),
+        shape!("bool_char", k_bool_char, t_bool_char, a_bool_char, (a: [bool], b: [char])),
+        shape!("char_str_char", k_char_str, t_char_str, a_char_str, (a: [char], b: [String], c: [char])),
+        shape!("f64_f32", k_floats, t_floats, a_floats, (a: [f64], b: [f32])),
+        shape!("f64_i32_str", k_float_mix, t_float_mix, a_float_mix, (a: [f64], b: [i32], c: [String])),
+        shape!("optstr_vecstr", k_opt_vec, t_opt_vec, a_opt_vec, (a: [Option<String>], b: [Vec<String>])),
+        shape!("tuple_str_i32_tuple1", k_tuples, t_tuples, a_tuples, (a: [(String, i32)], b: [(u8,)])),
+        shape!("tuple5_tuple2", k_tuple5, t_tuple5, a_tuple5, (a: [(u8, bool, char, String, i64)], b: [(i64, String)])),
+        shape!("nested", k_nested, t_nested, a_nested, (a: [Vec<Option<(String, char)>>], b: [Option<Vec<i16>>], c: [Vec<Vec<String>>])),
+        shape!("optopt_vecbool_opttuple1", k_optopt, t_optopt, a_optopt, (a: [Option<Option<String>>], b: [Vec<bool>], c: [Option<(f32,)>])),
+        shape!("point_fig", k_point_fig, t_point_fig, a_point_fig, (a: [Point], b: [Fig])),
+        shape!("tagged_marker_str", k_tagged, t_tagged, a_tagged, (a: [Tagged], b: [Marker], c: [String])),
+        shape!("outer_vecfig", k_outer, t_outer, a_outer, (a: [Outer], b: [Vec<Fig>])),
+        shape!("unicode_ident", k_nandu, t_nandu, a_nandu, (a: [Ñandú], b: [String])),
+        method_shape!("store.get(str)", Store, m_get, mt_get, ma_get, (k: [String])),
         method_shape!("store.noargs", Store, m_all, mt_all, ma_all, ()),
-        method_shape!("fig.scale(u32,optstr)", Fig, m_scale, mt_scale, ma_scale, (k: u32, label: Option<String>)),
-        method_shape!("tagged.find(str,str)", Tagged, m_find, mt_find, ma_find, (a: String, b: String)),
+        method_shape!("fig.scale(u32,optstr)", Fig, m_scale, mt_scale, ma_scale, (k: [u32], label: [Option<String>])),
+        method_shape!("tagged.find(str,str)", Tagged, m_find, mt_find, ma_find, (a: [String], b: [String])),
         method_shape!("point.noargs", Point, m_norm, mt_norm, ma_norm, ()),
-        method_shape!("point.idx(u32,u32)", Point, m_idx, mt_idx, ma_idx, (a: u32, b: u32)),
-        method_shape!("store.at(i64,u8,u16)", Store, m_at, mt_at, ma_at, (a: i64, b: u8, c: u16)),
+        method_shape!("point.idx(u32,u32)", Point, m_idx, mt_idx, ma_idx, (a: [u32], b: [u32])),
+        method_shape!("store.at(i64,u8,u16)", Store, m_at, mt_at, ma_at, (a: [i64], b: [u8], c: [u16])),
     ]
 }
 
@@ -1143,10 +1143,22 @@ fn tweak(t: &Ty, v: &V, rng: &mut Rng) -> V {
     match (t, v) {
         (Ty::U(b), V::U(x)) => {
             let max: u128 = if *b == 128 { u128::MAX } else { (1u128 << b) - 1 };
+            // half of the time: differ ONLY above a narrower width (bit 8 / 16 / 32 / 64 flipped) — what a key path
+            // that narrows the integer (`as u64`, `as u32`, a hash of the low half) would confuse
+            let widths: Vec<u32> = [8u32, 16, 32, 64].iter().copied().filter(|w| w < b).collect();
+            if !widths.is_empty() && rng.chance(1, 2) {
+                let w = *rng.pick(&widths);
+                return V::U(x ^ (1u128 << w));
+            }
             V::U(if *x == max { x - 1 } else { x + 1 })
         }
         (Ty::I(b), V::I(x)) => {
             let max: i128 = if *b == 128 { i128::MAX } else { (1i128 << (b - 1)) - 1 };
+            let widths: Vec<u32> = [8u32, 16, 32, 64].iter().copied().filter(|w| *w < *b - 1).collect();
+            if !widths.is_empty() && rng.chance(1, 2) {
+                let w = *rng.pick(&widths);
+                return V::I(x ^ (1i128 << w));
+            }
             V::I(if *x == max { x - 1 } else if rng.chance(1, 2) && *x != i128::MIN && -*x <= max && *x != 0 { -*x } else { x + 1 })
         }
         (Ty::Bool, V::Bool(b)) => V::Bool(!b),
